@@ -4,6 +4,7 @@
 //	c18 formats                                               registered groups and their default in-args (JSON)
 //	c18 worker                                                worker side of vet
 //	c18 solo  <specs> <out> <orderSeed> <repeat>              every spec sequentially on one goroutine (orderSeed 0: file order)
+//	c18 multi <specs> <groups> <out>                          several inputs through ONE Interp (`fq .. f1 f2`) against each input alone
 //	c18 sched <specs> <solo> <scheds> <out>                   TLC-emitted schedules with start gates; the first one runs on a cold registry
 //	c18 drive <specs> <solo> <out> <goroutines> <njobs> <roundSeed>   randomised concurrent driver, start/end events with atomic sequence numbers
 //
@@ -131,6 +132,7 @@ func optValue(s string) any {
 type mfs struct {
 	name string
 	data []byte
+	more map[string][]byte // further inputs of a several-files invocation
 }
 type mfile struct {
 	*bytes.Reader
@@ -143,10 +145,14 @@ func (f mfile) Stat() (fs.FileInfo, error) {
 }
 func (f mfile) Close() error { return nil }
 func (m mfs) Open(name string) (fs.File, error) {
+	data := m.data
 	if name != m.name {
-		return nil, &fs.PathError{Op: "open", Path: name, Err: fs.ErrNotExist}
+		var ok bool
+		if data, ok = m.more[name]; !ok {
+			return nil, &fs.PathError{Op: "open", Path: name, Err: fs.ErrNotExist}
+		}
 	}
-	return mfile{Reader: bytes.NewReader(m.data), name: name, size: int64(len(m.data))}, nil
+	return mfile{Reader: bytes.NewReader(data), name: name, size: int64(len(data))}, nil
 }
 
 type vin struct{ interp.FileReader }
@@ -181,8 +187,7 @@ func (o *vos) Readline(opts interp.ReadlineOpts) (string, error) {
 	return "", io.EOF
 }
 
-func runInterp(sp *Spec, data []byte) ([]byte, string) {
-	name := filepath.Base(sp.File)
+func fqArgs(sp *Spec) []string {
 	args := []string{"fq", "-d", sp.Format}
 	for _, k := range optKeys(sp) {
 		args = append(args, "-o", k+"="+optText(sp.Opts[k]))
@@ -191,29 +196,74 @@ func runInterp(sp *Spec, data []byte) ([]byte, string) {
 	if expr == "" {
 		expr = "dv"
 	}
-	args = append(args, expr, name)
-	o := &vos{args: args, stdout: &bytes.Buffer{}, stderr: &bytes.Buffer{}, fsys: mfs{name: name, data: data}}
-	i, err := interp.New(o, interp.DefaultRegistry) // fresh Interp per job, shared registry
+	return append(args, expr)
+}
+
+// runFq: one fresh Interp on the shared registry, one invocation
+func runFq(args []string, fsys fs.FS) (stdout, stderr []byte, code int) {
+	o := &vos{args: args, stdout: &bytes.Buffer{}, stderr: &bytes.Buffer{}, fsys: fsys}
+	i, err := interp.New(o, interp.DefaultRegistry)
 	if err != nil {
 		kit.Fatalf("interp.New: %v", err)
 	}
 	err = i.Main(context.Background(), o.Stdout(), "verif")
 	i.Stop()
-	code := 0
 	if err != nil {
 		code = -2
 		if ex, ok := err.(interp.Exiter); ok {
 			code = ex.ExitCode()
 		}
 	}
+	return o.stdout.Bytes(), o.stderr.Bytes(), code
+}
+
+func runInterp(sp *Spec, data []byte) ([]byte, string) {
+	name := filepath.Base(sp.File)
+	so, se, code := runFq(append(fqArgs(sp), name), mfs{name: name, data: data})
 	var b bytes.Buffer
-	b.Write(o.stdout.Bytes())
-	fmt.Fprintf(&b, "\n--stderr--\n%s\n--exit %d--\n", o.stderr.Bytes(), code)
+	b.Write(so)
+	fmt.Fprintf(&b, "\n--stderr--\n%s\n--exit %d--\n", se, code)
 	class := "ok"
-	if code != 0 || o.stderr.Len() != 0 {
+	if code != 0 || len(se) != 0 {
 		class = "fail"
 	}
 	return b.Bytes(), class
+}
+
+// runMulti: `fq -d F [-o ..] EXPR file1 file2 ..` on ONE Interp (include cache and global state carried from input to input),
+// then every input alone on a fresh Interp: stdout and stderr of the former must be the concatenation of the latter.
+func runMulti(group []*Spec) map[string]any {
+	fsys := mfs{more: map[string][]byte{}}
+	args := fqArgs(group[0])
+	var ids []string
+	for _, sp := range group {
+		name := filepath.Base(sp.File)
+		fsys.more[name] = input(sp)
+		args = append(args, name)
+		ids = append(ids, sp.ID)
+	}
+	so, se, code := runFq(args, fsys)
+	var wo, we bytes.Buffer
+	wcode := 0
+	for _, sp := range group {
+		name := filepath.Base(sp.File)
+		o1, e1, c1 := runFq(append(fqArgs(sp), name), mfs{name: name, data: input(sp)})
+		wo.Write(o1)
+		we.Write(e1)
+		if c1 != 0 {
+			wcode = c1
+		}
+	}
+	rec := map[string]any{"specs": ids, "match": true, "n": len(so) + len(se)}
+	switch {
+	case !bytes.Equal(so, wo.Bytes()):
+		rec["match"], rec["detail"] = false, "stdout: "+firstDiff(wo.Bytes(), so)
+	case !bytes.Equal(se, we.Bytes()):
+		rec["match"], rec["detail"] = false, "stderr: "+firstDiff(we.Bytes(), se)
+	case wcode == 0 && code != 0:
+		rec["match"], rec["detail"] = false, fmt.Sprintf("exit status %d although every input alone exits 0", code)
+	}
+	return rec
 }
 
 // ---------------------------------------------------------------- decode level
@@ -688,6 +738,22 @@ func main() {
 			r := runSpec(specs[i])
 			out.Emit(map[string]any{"id": specs[i].ID, "pos": pos, "hash": r.Hash, "class": r.Class, "n": r.N, "ms": r.Ms})
 		}
+		out.Close()
+	case "multi":
+		_, specs := loadSpecs(os.Args[2])
+		out := kit.NewOut(os.Args[4])
+		kit.Cases(os.Args[3], func(_ int, raw []byte) {
+			var ids []string
+			kit.Unmarshal(raw, &ids)
+			var group []*Spec
+			for _, id := range ids {
+				if specs[id] == nil {
+					kit.Fatalf("unknown spec %s", id)
+				}
+				group = append(group, specs[id])
+			}
+			out.Emit(runMulti(group))
+		})
 		out.Close()
 	case "sched":
 		_, specs := loadSpecs(os.Args[2])
